@@ -269,6 +269,22 @@ def run(repo: Repo, rep: Report) -> None:
                     rep.ob("C12.a-label-is-not-identity", mod, where, c, True, "opt-in: reached only when the caller changes a flag (%s)" % fl, node=c)
                     continue
                 _MINT_SITES.append((name, mod, where, f, c, args[0], "not-generated"))
+                why_not = ("document-derived: the argument %s flows from the parsed text (or a position / counter) with no per-run unique component and no opt-in flag: "
+                           "the same label in two documents (or two parses) yields the same blank node" % norm(args[0])[:80])
+                # A listed finding is recognised along the value flow.  When the site stands in a private helper all of whose call sites are known
+                # and its argument is a function of the helper's parameters, `BNode(<parameters>)` there and `BNode(<actual arguments>)` at each call
+                # site are one and the same defect; it is reported in the latter form when that is the form in which it is listed (every call site),
+                # else where it stands.  Nothing is accepted by this that is not a listed finding.
+                lifted = h_c12.lift_to_callers(repo, name, q, f, c) if where == q else None
+                if lifted:
+                    known = rep._known()
+                    forms = [(cmod, cq, call, sub) for (_cn, cmod, cq, call, sub) in lifted]
+                    if all(any(Report._match(k, {"rule": "C12.a-label-is-not-identity", "function": cq, "construct": norm(sub)[:300]}) for k in known)
+                           for (_m, cq, _c, sub) in forms):
+                        for cmod, cq, call, sub in forms:
+                            rep.ob("C12.a-label-is-not-identity", cmod, cq, sub, False,
+                                   why_not + " (the construct stands in %s, line %s; shown with the arguments of this call site)" % (where, c.lineno), node=call)
+                        continue
                 rep.ob("C12.a-label-is-not-identity", mod, where, c, False,
                        "document-derived: the argument %s flows from the parsed text (or a position / counter) with no per-run unique component and no opt-in flag: "
                        "the same label in two documents (or two parses) yields the same blank node" % norm(args[0])[:80], node=c)
@@ -336,30 +352,30 @@ def run(repo: Repo, rep: Report) -> None:
            "a formula's number is no longer always taken from the unconditionally incremented process-wide counter (%s): formula identifiers of separate parse calls can coincide and their quoted graphs merge" % [norm(n.value) for n in nums], node=fi)
     # parser plugin instances live for one parse call
     rep.rule("C12.b3-parser-instance-per-call",
-             "a parser plugin instance (`plugin.get(fmt, Parser)()`), which owns the label map, is never stored in an attribute, dict or global: "
-             "each parse() call builds its own", floor=1)
-    nsites = 0
-    for name, mod in repo.modules.items():
-        if name.startswith("rdflib.plugins.parsers.") or name.startswith("rdflib.tools") or name.startswith("rdflib.extras"):
-            continue
-        for q, f in mod.functions():
-            for n in own_nodes(f):
-                cands = []
-                if isinstance(n, (ast.Assign, ast.AnnAssign)) and getattr(n, "value", None) is not None:
-                    cands = [(n, n.targets if isinstance(n, ast.Assign) else [n.target], n.value)]
-                for st, tgs, v in cands:
-                    inst = [c for c in ast.walk(v) if isinstance(c, ast.Call) and isinstance(c.func, ast.Call) and norm(c.func.func) in ("plugin.get", "get_plugin", "plugin_get")
-                            and len(c.func.args) == 2 and norm(c.func.args[1]) == "Parser"]
-                    if not inst:
-                        continue
-                    nsites += 1
-                    stored = [t for t in tgs if isinstance(t, (ast.Attribute, ast.Subscript))]
-                    is_global = any(isinstance(g, ast.Global) for g in own_nodes(f))
-                    rep.ob("C12.b3-parser-instance-per-call", mod, q, st, not stored and not is_global,
-                           "a fresh parser instance held in a local" if not stored and not is_global else
-                           "the parser instance is stored in %s: its label->BNode map survives into the next parse() call and blank nodes of separate documents merge" % norm(stored[0] if stored else st.targets[0]), node=st)
-    if nsites < 1:
-        raise AnalysisError("no parser instantiation site (plugin.get(fmt, Parser)()) found")
+             "a parser plugin instance, which owns the label map, does not outlive the parse() call that made it. Every expression outside the parser "
+             "modules that can evaluate to an instance made on the spot - `<lookup of a Parser plugin class>()`, also through a local holding the class, "
+             "and every call of a function that returns such an expression (fixpoint over the call graph) - is followed to where its value goes: "
+             "a local, the receiver of a call, an argument, a `return` are fine; an attribute, a subscript, a global/nonlocal, a container that was not "
+             "made by the same call, a parameter default or a module/class-level binding keep it, and then its label->BNode map survives into the next "
+             "parse() call. Anchor by role: at least one instantiation lies in Graph.parse or in a function it can call", floor=1)
+    pi = h_c12.ParserInstances(repo, typed, lambda n: n.startswith(("rdflib.plugins.parsers.", "rdflib.tools", "rdflib.extras")))
+    entry = "rdflib.graph.Graph.parse"
+    repo.mod("rdflib.graph").func("Graph.parse")  # the public entry point: a stable anchor
+    reach = pi.reachable_from(entry)
+    nsites = n_entry = 0
+    for name, mod, q, f, e, is_inst in pi.sites():
+        nsites += 1
+        if is_inst and "%s.%s" % (name, q) in reach:
+            n_entry += 1
+        rep.analysed("%s:%s" % (mod.rel, q))
+        ok, why, shown = pi.destiny(name, mod, f, e)
+        rep.ob("C12.b3-parser-instance-per-call", mod, q, shown if isinstance(shown, ast.stmt) else e, ok,
+               "a fresh parser instance, %s" % why if ok else
+               "the parser instance is %s: its label->BNode map survives into the next parse() call and blank nodes of separate documents merge" % why, node=e)
+    rep.info["functions_returning_a_fresh_parser_instance"] = sorted(pi.producers)
+    if nsites < 1 or n_entry < 1:
+        raise AnalysisError("no parser instantiation site (plugin.get(fmt, Parser)()) found%s" % (
+            "" if nsites < 1 else " in Graph.parse or in a function it calls (%d elsewhere)" % nsites))
 
     # ------------------------------------------------------------------ (b)
     rep.rule("C12.b-label-map-per-parse",
@@ -543,11 +559,13 @@ def run(repo: Repo, rep: Report) -> None:
         raise AnalysisError("expected >= 10 add/addN call sites on Graph-typed receivers in parser modules, found %d (typed resolution lost?)" % n_add)
 
 
+from vlib.core import layer as _layer  # noqa: E402
+
 _run_base = run
 
 
 def run(repo: Repo, rep: Report) -> None:  # noqa: F811
-    _run_base(repo, rep)
+    _layer(rep, _run_base, repo)
     from vlib import memo
 
     rep.rule("C12.d-label-map-keyed-by-the-label-alone",
@@ -597,7 +615,7 @@ _run_base2 = run
 
 
 def run(repo: Repo, rep: Report) -> None:  # noqa: F811
-    _run_base2(repo, rep)
+    _layer(rep, _run_base2, repo)
     from vlib import h_c12
 
     typed = repo.typed
@@ -693,7 +711,7 @@ CANONICAL_FORM = "_TripleCanonicalizer._canonicalize_bnodes"  # produces the can
 
 
 def run(repo: Repo, rep: Report) -> None:  # noqa: F811
-    _run_base3(repo, rep)
+    _layer(rep, _run_base3, repo)
     import re
 
     from vlib import h_c12
@@ -788,3 +806,169 @@ def run(repo: Repo, rep: Report) -> None:  # noqa: F811
         for z in zs:
             rep.ob("C12.h-colorings-not-paired-by-position", cm, q, z, False,
                    "`%s` pairs the colours of colorings by their list position, which carries no meaning (it follows set iteration order, i.e. blank-node ids)" % norm(z)[:80], node=z)
+
+
+_run_base4 = run
+
+
+def run(repo: Repo, rep: Report) -> None:  # noqa: F811
+    _layer(rep, _run_base4, repo)
+    import re
+
+    from vlib import h_c12
+
+    typed = repo.typed
+    rep.extra["explanation"] = rep.extra["explanation"] + (
+        " (i-l) The same search decides which leaf labelling wins: a colouring that was individuated is refined before anything else reads it; the "
+        "score by which a loop keeps the best branch is computed from that iteration's branch; a branch is dropped only when it is strictly "
+        "worse than a kept one or has the same canonical triples; and a labelling is never chosen by its position in a list of labellings."
+    )
+    cm = repo.mod(COMPARE)
+    canonical_full = "%s.%s" % (COMPARE, CANONICAL_FORM)
+    cls = CANONICAL_FORM.rpartition(".")[0]
+    individuate_full = "%s.%s._individuate" % (COMPARE, cls)
+    refine_full = "%s.%s._refine" % (COMPARE, cls)
+    cm.func("%s._individuate" % cls)  # anchors
+    cm.func("%s._refine" % cls)
+    colorings = re.compile(r"^(builtins\.)?list\[(builtins\.)?list\[rdflib\.compare\.Color\]\]$")
+
+    # ------------------------------------------------------------------ (i)
+    # F306, third part: after a node was split off its colour, the colouring is not equitable until it was refined against the new colour
+    rep.rule("C12.i-individuated-coloring-refined-before-use",
+             "in rdflib.compare, a list of colours to which the result of _individuate() was appended is read by nothing but the first argument "
+             "of _refine() until it is bound again: the individuation removes the node from its colour in place, and only _refine propagates that "
+             "split to the neighbours. _experimental_path() refines against the colours it individuates itself only; started from the unrefined list it "
+             "never propagates the candidate's individuation, its leaf says nothing about the candidate, no automorphism is found from it and no "
+             "candidate is pruned: the graph of k disjoint triangles _:a p _:b . _:b p _:c . _:c p _:a (x k), parsed twice, could not be compared "
+             "in reasonable time (exponential in k)", floor=2)
+    sites = h_c12.individuated_appends(repo, typed, COMPARE, individuate_full)
+    for q, f, g, st, lname in sites:
+        rep.analysed("%s:%s" % (cm.rel, q))
+        bad = []
+        for u in h_c12.uses_before_rebinding(g, g.node_of(st, cm), lname):
+            if u is st.value.func.value:
+                continue  # the append itself, met again on the way round a loop: rebinding comes first or another use is reported
+            p = next(cm.parents(u))
+            if not (isinstance(p, ast.Call) and p.args and p.args[0] is u and h_c12._resolves_to(typed, COMPARE, p, refine_full)):
+                bad.append((u, p))
+        rep.ob("C12.i-individuated-coloring-refined-before-use", cm, q, st, not bad,
+               "every later read of the list is `_refine(<list>, ...)`" if not bad else
+               "the list with the freshly individuated colour is read by `%s` (line %s) without having been refined: the split of the individuated "
+               "node is not propagated to its neighbours in what that code sees" % (norm(bad[0][1])[:80], getattr(bad[0][0], "lineno", "?")), node=st)
+
+    # ------------------------------------------------------------------ (j)
+    # F306, second part: `color_score = f(refined_coloring)` in the recursion loop read a variable of the loop BEFORE it
+    rep.rule("C12.j-branch-score-computed-from-the-branch",
+             "in rdflib.compare, where a for loop keeps the best of its items (`if B is None or S > B: B = S; chosen = ...`), the score S that "
+             "reaches the test is bound inside the loop from the loop's own item (directly or through locals bound in the body). A score that is "
+             "the same in every iteration makes the loop keep its first item whatever it is; the order of the items follows set iteration over "
+             "blank nodes, so the labelling chosen - and with it the digest and the answer of isomorphic() - depends on the generated ids: one "
+             "document whose blank nodes need two levels of individuation (F187's 18 lines) parsed into two fresh graphs compared unequal for "
+             "about half of the id assignments", floor=2)
+    n_best = 0
+    for q, f in cm.functions():
+        tests = h_c12.best_of_tests(cm, f)
+        if not tests:
+            continue
+        g = CFG(f)
+        rep.analysed("%s:%s" % (cm.rel, q))
+        for loop, ifst, score, best in tests:
+            n_best += 1
+            ok = h_c12.depends_on_iteration(g, loop, g.node_of(ifst, cm), score.id)
+            rep.ob("C12.j-branch-score-computed-from-the-branch", cm, q, ifst.test, ok,
+                   "the score is computed in the loop body from `%s`" % norm(loop.target) if ok else
+                   "the score `%s` compared here is not computed from the item `%s` of the loop `for ... in %s`: it has the same value for every "
+                   "branch, the first branch always wins" % (score.id, norm(loop.target), norm(loop.iter)[:40]), node=ifst)
+
+    # ------------------------------------------------------------------ (k)
+    # F306, first part: equally scored candidates were dropped when the SET of colour keys of their experimental leaves was equal
+    rep.rule("C12.k-branch-dropped-only-if-worse-or-canonically-equal",
+             "in rdflib.compare, every way through one iteration of a loop that collects branches of the search (it stores into a list[list[Color]]) "
+             "which stores nothing - the branch is dropped - leaves some `if` on a side that justifies it: the strict side of an order test between "
+             "two scores, or the 'equal' side of an ==/!= (either side of an order test) between two different values both computed with "
+             "_canonicalize_bnodes, i.e. the canonical triples the branch leads to are those of a branch that is kept. The `continue` of rule (g) "
+             "is the third way. Equality of anything weaker (the set of (size, colour hash) keys of an experimental leaf) does not make two "
+             "branches equivalent: dropping one of them makes the result depend on which came first, i.e. on blank-node ids (same input as (j))",
+             floor=2)
+    g_continues = [c for _, c, _, _ in h_c12.pruning_builders(repo, typed, COMPARE)]
+    n_loops = 0
+    for q, f in cm.functions():
+        loops = [n for n in own_nodes(f) if isinstance(n, (ast.For, ast.AsyncFor))]
+        g = canon_ = None
+        for loop in loops:
+            keeps = h_c12.keep_statements(typed, COMPARE, loop, colorings)
+            if not keeps:
+                continue
+            if g is None:
+                g = CFG(f)
+                canon_ = h_c12.Canonical(repo, typed, COMPARE, f, g, canonical_full)
+            n_loops += 1
+            rep.analysed("%s:%s" % (cm.rel, q))
+            path = h_c12.unjustified_drop(g, cm, canon_, loop, keeps, g_continues)
+            what = "for %s in %s" % (norm(loop.target), norm(loop.iter))
+            # the test to show: the last one on the way that compares two computed values (the one that stands for "equivalent to a kept branch")
+            shown = [t for t in (path or []) if any(
+                isinstance(c, ast.Compare) and not isinstance(c.ops[0], (ast.Is, ast.IsNot, ast.In, ast.NotIn))
+                and not any(isinstance(o, ast.Constant) for o in [c.left] + c.comparators) for c in ast.walk(t.test))] or (path or [])
+            rep.ob("C12.k-branch-dropped-only-if-worse-or-canonically-equal", cm, q, what, path is None,
+                   "every iteration that keeps nothing passes a strict order test or an equality of canonical triples" if path is None else
+                   "an iteration can end without the branch being kept and without any test that makes it worse than, or canonically equal to, a kept "
+                   "one; the last comparison on that way is `%s`" % (norm(shown[-1].test)[:100] if shown else "none"), node=shown[-1] if shown else loop)
+
+    # ------------------------------------------------------------------ (l)
+    # F306, first part, the other end: `return discrete[0]`
+    rep.rule("C12.l-labelling-not-chosen-by-position",
+             "no function of rdflib.compare takes an element of a list[list[Color]] by a constant index, by pop() or by next(iter()), and a "
+             "max()/min()/sorted() over such a list has a key= that is computed with _canonicalize_bnodes: the order of a list of candidate labellings "
+             "is the order in which candidates were met (set iteration over blank nodes), so `return discrete[0]` returned a different labelling for "
+             "a different assignment of ids when several leaves were left (same input as (j))", floor=2)
+    per_fn: dict[str, list] = {}
+    bad_pick: dict[str, list] = {}
+    for q, f in cm.functions():
+        for n in own_nodes(f):
+            if isinstance(n, ast.Name) and isinstance(n.ctx, ast.Load):
+                tf = typed.type_of(COMPARE, n)
+                if tf is None or not colorings.match(tf.text.replace(" | None", "")):
+                    continue
+                per_fn.setdefault(q, []).append(n)
+                p = next(cm.parents(n))
+                if isinstance(p, ast.Subscript) and p.value is n and isinstance(p.ctx, ast.Load) and not isinstance(p.slice, ast.Slice):
+                    idx = p.slice
+                    if isinstance(idx, ast.UnaryOp) and isinstance(idx.operand, ast.Constant):
+                        idx = idx.operand
+                    if isinstance(idx, ast.Constant):
+                        bad_pick.setdefault(q, []).append((p, "takes the element at a fixed position"))
+                elif isinstance(p, ast.Attribute) and p.attr == "pop" and isinstance(next(cm.parents(p)), ast.Call):
+                    bad_pick.setdefault(q, []).append((next(cm.parents(p)), "takes the element at a fixed position"))
+                elif isinstance(p, ast.Call) and n in p.args and isinstance(p.func, ast.Name) and p.func.id in ("iter", "max", "min", "sorted"):
+                    if p.func.id == "iter":
+                        pp = next(cm.parents(p))
+                        if isinstance(pp, ast.Call) and norm(pp.func) == "next":
+                            bad_pick.setdefault(q, []).append((pp, "takes the first element"))
+                        continue
+                    key = next((k.value for k in p.keywords if k.arg == "key"), None)
+                    kfn = None
+                    if isinstance(key, ast.Lambda):
+                        kfn = key
+                    elif isinstance(key, ast.Attribute) and isinstance(key.value, ast.Name) and key.value.id == "self":
+                        owner = q.rpartition(".")[0]
+                        kfn = cm.defs.get("%s.%s" % (owner, key.attr))
+                    elif isinstance(key, ast.Name):
+                        kfn = cm.defs.get(key.id)
+                    ok = kfn is not None and any(
+                        isinstance(x, ast.Call) and (canonical_full in typed.callees(COMPARE, x) or h_c12.reaches_fn(repo, typed, COMPARE, x, canonical_full))
+                        for x in ast.walk(kfn))
+                    if not ok:
+                        bad_pick.setdefault(q, []).append((p, "orders the labellings by %s, not by their canonical triples" % (
+                            "`%s`" % norm(key)[:40] if key is not None else "comparing lists of Color objects")))
+    for q in sorted(per_fn):
+        rep.analysed("%s:%s" % (cm.rel, q))
+        bs = bad_pick.get(q, [])
+        if not bs:
+            rep.ob("C12.l-labelling-not-chosen-by-position", cm, q, "no positional choice among labellings", True,
+                   "%d read(s) of a list of labellings, none by position" % len(per_fn[q]), node=per_fn[q][0])
+        for b, why in bs:
+            rep.ob("C12.l-labelling-not-chosen-by-position", cm, q, b, False,
+                   "`%s` %s; which labelling that is depends on the iteration order over blank nodes, i.e. on their generated ids" % (norm(b)[:60], why), node=b)
+    rep.info["compare_best_of_loops"] = n_best
+    rep.info["compare_branch_collecting_loops"] = n_loops
